@@ -358,6 +358,13 @@ def raii_guards(R, body, name, end_indent="    "):
     return out
 
 
+def counter_rule(R, text):
+    """X12: counter accesses `H.inner().inc_strong()` (dec_strong, inc_weak, dec_weak), with or without an
+    `unsafe { }` wrapper already removed, become the shim's counter methods, so that a change which touches a
+    counter in a function whose contract says `cnts unchanged` is refuted rather than undecided"""
+    return R.sub("X12.counter_access", r"\b(\w+)\.inner\(\)\.(inc_strong|dec_strong|inc_weak|dec_weak)\(\)", r"heap.\2(&\1.ptr)", text)
+
+
 def extract_adopt(repo, ADOPT, R):
     lines = open(os.path.join(repo, "src", "adopt.rs")).read().split("\n")
     parts = [ADOPT.get("__prelude", "")]
@@ -368,6 +375,7 @@ def extract_adopt(repo, ADOPT, R):
         text = R.sub("X4.unsafe_block", r"unsafe \{ (.*?) \}", r"\1", text)
         text = R.sub("X3.handle_eq", r"\bptr::eq\((\w+), (\w+)\)", r"\1.hid == \2.hid", text)
         text = R.sub("X3.alloc_eq", r"\b(?:Rc|Self)::ptr_eq\((\w+), (\w+)\)", r"\1.ptr == \2.ptr", text)
+        text = counter_rule(R, text)
         fl = text.split("\n")
         sig, body, close = split_fn(fl)
         body = raii_guards(R, body, fn)
@@ -391,6 +399,7 @@ def extract_drop(repo, DROP, R):
     text = common_rules(R, "\n".join(fl))
     text = R.sub("X4.unsafe_fn", r"\bunsafe fn\b", "fn", text)
     text = R.sub("X1.fn_generic", r"fn drop_unreachable_with_adoptions<T>\(", "fn drop_unreachable_with_adoptions(", text, expect=1)
+    text = counter_rule(R, text)
     fl = alpha_rename(R, text.split("\n"), ann, name)
     sig, body, close = split_fn(fl)
     code = [_strip_strings(l).rstrip() for l in body]
